@@ -433,10 +433,19 @@ static int tinfoId(const Value* V)
    return id;
 }
 
+// direct callee, looking through GlobalAliases (e.g. complete-object constructor C1 aliased to base-object constructor C2)
+static const Function* directCallee(const CallBase& CB)
+{
+   if(const Function* F = CB.getCalledFunction()) return F;
+   if(auto* GA = dyn_cast<GlobalAlias>(CB.getCalledOperand()))
+      if(auto* F = dyn_cast<Function>(GA->getAliaseeObject()))
+         if(F->getFunctionType() == CB.getFunctionType()) return F;
+   return nullptr;
+}
 static void emitCall(const CallBase& CB, FnCtx& C, const Function& F)
 {
    std::ostringstream& os = C.body;
-   const Function* callee = CB.getCalledFunction();
+   const Function* callee = directCallee(CB);
    string lhs = CB.getType()->isVoidTy() ? "" : C.name[&CB] + " = ";
    auto arg = [&](unsigned i) { return val(CB.getArgOperand(i), &C); };
    if(callee && callee->isIntrinsic())
@@ -583,7 +592,7 @@ static void emitFunction(const Function& F, raw_ostream& out)
          std::vector<const Instruction*> work;
          for(const BasicBlock& B : F) for(const Instruction& I : B)
             if(auto* CB = dyn_cast<CallBase>(&I))
-               if(!CB->getCalledFunction() && !isa<Function>(CB->getCalledOperand()->stripPointerCasts()))
+               if(!directCallee(*CB) && !isa<Function>(CB->getCalledOperand()->stripPointerCasts()))
                {
                   stubCalls.insert(&I);
                   if(auto* OI = dyn_cast<Instruction>(CB->getCalledOperand())) work.push_back(OI);
